@@ -1,4 +1,272 @@
-import ZtypV.Spec
+/-
+C03 — View decoding is canonical, total and panic-free.
+
+Model: `ZtypV.View.decode` / `decodeTop` (Model/Decode.lean) over the reader model `DR`.
+Spec: `hasType`, `serialize`, `Valid` (Spec.lean); constructor route `View.construct`.
+
+Proved here (all for every type `t`, every hash `h`, every byte string, no size bounds):
+* `C03_no_panic`   — no panic outcome of the model is reachable for well-formed types;
+* `C03_sound`      — an accepted input is the encoding of a well-typed value, and the returned
+                     backing is exactly what the constructor route builds for that value;
+* `C03_valid`      — hence accepted ⇒ `Valid t bs`; `C03_rejects_invalid` the contrapositive;
+* `C03_rejects_*`  — the named malformation classes are rejected (direct statements on `decodeTop`).
+`C03_canonical_full` (re-serialization reproduces the input) is kept as a `def`: it is
+`C03_sound` composed with the C02 theorem `serializeView t (construct t v) = serialize t v`
+(Props/C02.lean, other contributor); `C03_canonical_of_C02` does that composition.
+-/
+import ZtypV.Proofs.DecodeReject
 namespace ZtypV.Props.C03
-theorem placeholder : True := trivial
+open ZtypV ZtypV.View ZtypV.DecodeProofs
+
+/-! ### 1. panic freedom and totality -/
+
+/-- none of the model's panic outcomes (vector length 0, empty offsets, division by a zero
+    element size, nil backing after an ignored fill error, bad selector index) is reachable -/
+theorem C03_no_panic (h : HashFn) (t : Ty) (bs : Bytes) (hw : t.wf = true) :
+    decodeTop h t bs ≠ .error .panic :=
+  decodeTop_noPanic h t hw bs
+
+/-- the same for a decoder started on an arbitrary reader state (any `i`, `max`, stream) -/
+theorem C03_no_panic_reader (h : HashFn) (t : Ty) (dr : DR) (hw : t.wf = true) :
+    decode h t dr ≠ .error .panic :=
+  decode_noPanic h t hw dr
+
+/-- deserialization either returns a view or a (non-panic) error -/
+theorem C03_total (h : HashFn) (t : Ty) (bs : Bytes) (hw : t.wf = true) :
+    (∃ n, decodeTop h t bs = .ok n) ∨ (∃ e, decodeTop h t bs = .error e ∧ e ≠ .panic) := by
+  cases hd : decodeTop h t bs with
+  | ok n => exact Or.inl ⟨n, rfl⟩
+  | error e =>
+    refine Or.inr ⟨e, rfl, ?_⟩
+    intro he; subst he
+    exact C03_no_panic h t bs hw hd
+
+example : C03Ex.T.wf = true := by decide
+
+/-! ### 2. soundness: accepted ⇒ valid encoding, backing = constructor route -/
+
+/-- Master statement on an arbitrary reader: a successful decoder consumed exactly its scope
+    (`max - i`), these bytes are the encoding of a well-typed value and the backing is the one
+    the constructor route builds.  (No well-formedness hypothesis is needed.) -/
+theorem C03_decode_construct (h : HashFn) (t : Ty) (dr dr' : DR) (n : Node)
+    (hd : decode h t dr = .ok (n, dr'))
+    (hleaf : isLeafTy t = true → dr.scope = t.fixedSize) :
+    ∃ v, hasType t v = true ∧ serialize t v = dr.avail.take dr.scope ∧
+      dr.scope ≤ dr.avail.length ∧ dr'.avail = dr.avail.drop dr.scope ∧
+      construct h t v = .ok n :=
+  decode_sound h t dr n dr' hd hleaf
+
+/-- Top level, scope = length of the input; single-chunk leaf types (uint, bool, bytesN) are
+    handed exactly their fixed size, as in the property text. -/
+theorem C03_sound (h : HashFn) (t : Ty) (bs : Bytes) (n : Node)
+    (hleaf : isLeafTy t = true → bs.length = t.fixedSize)
+    (hd : decodeTop h t bs = .ok n) :
+    ∃ v, hasType t v = true ∧ serialize t v = bs ∧ construct h t v = .ok n :=
+  decodeTop_sound h t bs n hleaf hd
+
+/-- what really happens for leaf types on a longer input: a plain read of the prefix -/
+theorem C03_sound_leaf (h : HashFn) (t : Ty) (bs : Bytes) (n : Node)
+    (hleaf : isLeafTy t = true) (hd : decodeTop h t bs = .ok n) :
+    ∃ v, hasType t v = true ∧ serialize t v = bs.take t.fixedSize ∧ t.fixedSize ≤ bs.length ∧
+      construct h t v = .ok n :=
+  decodeTop_leaf_sound h t bs n hleaf hd
+
+/-- why the leaf hypothesis of `C03_sound` is there: a leaf decoder accepts a longer input
+    (it is a fixed-size read; the callers always hand exactly the fixed size) -/
+example : ∃ n, decodeTop C03Ex.h0 (.uint 1) [1, 2] = .ok n := isOk_ex (by decide +kernel)
+
+/-- a view is returned only for valid SSZ encodings -/
+theorem C03_valid (h : HashFn) (t : Ty) (bs : Bytes) (n : Node)
+    (hleaf : isLeafTy t = true → bs.length = t.fixedSize)
+    (hd : decodeTop h t bs = .ok n) : Valid t bs := by
+  obtain ⟨v, hv, hs, _⟩ := C03_sound h t bs n hleaf hd
+  exact ⟨v, hv, hs⟩
+
+/-- contrapositive: everything that is not a valid encoding is rejected with an error -/
+theorem C03_rejects_invalid (h : HashFn) (t : Ty) (bs : Bytes) (hw : t.wf = true)
+    (hleaf : isLeafTy t = true → bs.length = t.fixedSize) (hinv : ¬ Valid t bs) :
+    ∃ e, decodeTop h t bs = .error e ∧ e ≠ .panic := by
+  rcases C03_total h t bs hw with ⟨n, hn⟩ | he
+  · exact absurd (C03_valid h t bs n hleaf hn) hinv
+  · exact he
+
+/-- the hypotheses of `C03_sound` are satisfiable on a nested type: the encoding decodes -/
+example : ∃ n, decodeTop C03Ex.h0 C03Ex.T C03Ex.enc = .ok n := isOk_ex (by decide +kernel)
+example : isLeafTy C03Ex.T = true → C03Ex.enc.length = C03Ex.T.fixedSize := by decide
+/-- … and a leaf type with exactly its size -/
+example : ∃ n, decodeTop C03Ex.h0 (.uint 4) [1, 2, 3, 4] = .ok n := ⟨_, rfl⟩
+
+/-! ### 3. the named malformation classes are rejected -/
+
+/-- non-0/1 boolean -/
+theorem C03_rejects_bool (h : HashFn) (x : UInt8) (hx : x > 1) :
+    decodeTop h .bool [x] = .error .other := by
+  apply decodeTop_eq_error
+  rw [decode, read_new [x] 1 (by simp)]
+  simp [bind, Except.bind, hx]
+
+/-- … which is justified: such a byte is not a valid encoding -/
+theorem C03_invalid_bool (x : UInt8) (hx : x > 1) : ¬ Valid .bool [x] := by
+  rintro ⟨v, hv, hs⟩
+  cases v <;> simp [hasType] at hv
+  rename_i b
+  simp only [serialize, List.cons.injEq, and_true] at hs
+  subst hs
+  cases b <;> simp at hx
+
+/-- set padding bits in the last byte of a bitvector -/
+theorem C03_rejects_bitvector_padding (h : HashFn) (k : Nat) (bs : Bytes) (last : UInt8)
+    (hk : k % 8 ≠ 0) (hl : bs.getLast? = some last)
+    (hp : last.toNat % 2 ^ (k % 8) ≠ last.toNat) :
+    decodeTop h (.bitvector k) bs = .error .other := by
+  apply decodeTop_eq_error
+  rw [decode]
+  simp only [new_scope]
+  by_cases hlen : (k + 7) / 8 ≠ bs.length
+  · rw [if_pos hlen]
+  · rw [if_neg hlen, read_new bs _ (Nat.le_refl _)]
+    have hs0 : bs.length ≠ 0 := by omega
+    simp [bind, Except.bind, hl, hs0, hk, hp]
+
+/-- missing bitlist delimiter: last byte zero (or no byte at all) -/
+theorem C03_rejects_bitlist_no_delimiter (h : HashFn) (lim : Nat) (bs : Bytes)
+    (hl : bs = [] ∨ bs.getLast? = some 0) :
+    decodeTop h (.bitlist lim) bs = .error .other := by
+  apply decodeTop_eq_error
+  rw [decode]
+  simp only [new_scope]
+  by_cases hs0 : bs.length = 0
+  · rw [if_pos hs0]
+  · rw [if_neg hs0]
+    by_cases hs1 : bs.length > (lim + 8) / 8
+    · rw [if_pos hs1]
+    · rw [if_neg hs1, read_new bs _ (Nat.le_refl _)]
+      rcases hl with rfl | hl
+      · simp at hs0
+      · simp [bind, Except.bind, hl]
+
+/-- out-of-range union selector -/
+theorem C03_rejects_union_selector (h : HashFn) (hasNone : Bool) (opts : List Ty) (x : UInt8)
+    (rest : Bytes) (hx : x.toNat ≥ opts.length + (if hasNone then 1 else 0)) :
+    decodeTop h (.union hasNone opts) (x :: rest) = .error .other := by
+  apply decodeTop_eq_error
+  rw [decode]
+  simp only [new_scope]
+  rw [if_neg (by simp), read_new _ 1 (by simp)]
+  simp only [bind, Except.bind, List.take_succ_cons, List.take_zero, List.getD_cons_zero]
+  rw [if_pos hx]
+
+/-- data behind a None union value -/
+theorem C03_rejects_union_none_trailing (h : HashFn) (opts : List Ty) (b : UInt8) (rest : Bytes) :
+    decodeTop h (.union true opts) (0 :: b :: rest) = .error .other := by
+  apply decodeTop_eq_error
+  rw [decode]
+  simp only [new_scope]
+  rw [if_neg (by simp), read_new _ 1 (by simp)]
+  simp [bind, Except.bind]
+
+/-- trailing (or missing) data behind a fixed-size union value -/
+theorem C03_rejects_union_fixed_trailing (h : HashFn) (t : Ty) (ts : List Ty) (rest : Bytes)
+    (hf : t.isFixed = true) (hlen : t.fixedSize ≠ rest.length) :
+    decodeTop h (.union false (t :: ts)) (0 :: rest) = .error .other := by
+  apply decodeTop_eq_error
+  rw [decode]
+  simp only [new_scope]
+  rw [if_neg (by simp), read_new _ 1 (by simp)]
+  simp [bind, Except.bind, decodeOpt, hf, hlen]
+
+/-- container whose first field is variable-size: first offset ≠ size of the fixed part -/
+theorem C03_rejects_container_first_offset (h : HashFn) (t : Ty) (ts : List Ty) (bs : Bytes)
+    (hf : t.isFixed = false) (ho : leNat (bs.take 4) ≠ Ty.fixedPart (t :: ts)) :
+    decodeTop h (.container (t :: ts)) bs = .error .other := by
+  apply decodeTop_eq_error
+  rw [decode]
+  simp only [new_scope]
+  split
+  · rfl
+  · rw [decodeFixedPart]
+    simp only [hf, Bool.false_eq_true, if_false]
+    by_cases h4 : 4 ≤ bs.length
+    · rw [readOffset_new bs h4]
+      simp only [bind, Except.bind]
+      by_cases hlt : leNat (bs.take 4) < Ty.fixedPart (t :: ts)
+      · rw [if_pos hlt]
+      · rw [if_neg hlt, if_pos (by simpa using ho)]
+    · rw [readOffset_new_short bs (by omega)]; rfl
+
+/-- list of variable-size elements: first offset not a multiple of 4, zero, or out of range -/
+theorem C03_rejects_list_first_offset (h : HashFn) (e : Ty) (lim : Nat) (bs : Bytes)
+    (hf : e.isFixed = false) (hne : bs ≠ [])
+    (ho : leNat (bs.take 4) % 4 ≠ 0 ∨ leNat (bs.take 4) = 0 ∨ leNat (bs.take 4) > bs.length) :
+    decodeTop h (.list e lim) bs = .error .other := by
+  apply decodeTop_eq_error
+  have hb : isBasicElem e = false := by
+    cases e <;> simp [isBasicElem] ; simp [Ty.isFixed] at hf
+  have hs0 : bs.length ≠ 0 := by
+    intro h0; exact hne (List.eq_nil_of_length_eq_zero h0)
+  rw [decode]
+  simp only [new_scope, hb, hf, Bool.false_eq_true, if_false]
+  rw [if_neg hs0]
+  by_cases h4 : 4 ≤ bs.length
+  · rw [readOffset_new bs h4]
+    simp only [bind, Except.bind]
+    by_cases hm : leNat (bs.take 4) % 4 ≠ 0
+    · rw [if_pos hm]
+    · rw [if_neg hm, if_pos (by
+        rcases ho with ho | ho | ho
+        · exact absurd ho hm
+        · exact Or.inl ho
+        · exact Or.inr ho)]
+  · rw [readOffset_new_short bs (by omega)]; rfl
+
+/-- trailing or missing bytes of a fixed-size basic vector -/
+theorem C03_rejects_vector_length (h : HashFn) (b k : Nat) (bs : Bytes) (hlen : k * b ≠ bs.length) :
+    decodeTop h (.vector (.uint b) k) bs = .error .other := by
+  apply decodeTop_eq_error
+  rw [decode]
+  simp only [new_scope, isBasicElem, Ty.fixedSize, if_true]
+  rw [if_pos hlen]
+
+/-- over-limit length of a basic list -/
+theorem C03_rejects_list_over_limit (h : HashFn) (b lim : Nat) (bs : Bytes)
+    (hlen : bs.length / b > lim) :
+    decodeTop h (.list (.uint b) lim) bs = .error .other := by
+  apply decodeTop_eq_error
+  rw [decode]
+  simp only [new_scope, isBasicElem, Ty.fixedSize, if_true]
+  rw [if_pos hlen]
+
+/-- decreasing or out-of-range offsets, trailing/missing bytes in general: not valid encodings
+    are rejected (`C03_rejects_invalid`); a concrete instance with a decreasing offset pair: -/
+example : decodeTop C03Ex.h0 (.list (.list (.uint 1) 4) 4) [8, 0, 0, 0, 7, 0, 0, 0, 1] = .error .other :=
+  isOther_eq (by decide +kernel)
+example : decodeTop C03Ex.h0 .bool [2] = .error .other := C03_rejects_bool _ 2 (by decide)
+example : decodeTop C03Ex.h0 (.bitvector 10) [255, 4] = .error .other :=
+  C03_rejects_bitvector_padding _ 10 _ 4 (by decide) rfl (by decide)
+example : decodeTop C03Ex.h0 (.bitlist 10) [255, 0] = .error .other :=
+  C03_rejects_bitlist_no_delimiter _ 10 _ (Or.inr rfl)
+example : decodeTop C03Ex.h0 (.union true [.uint 1]) [2, 0] = .error .other :=
+  C03_rejects_union_selector _ true _ 2 _ (by decide)
+example : decodeTop C03Ex.h0 (.container [.list (.uint 1) 4, .uint 1]) [4, 0, 0, 0, 1] = .error .other :=
+  C03_rejects_container_first_offset _ _ _ _ rfl (by decide)
+
+/-! ### 4. canonical re-serialization (needs C02) -/
+
+/-- full canonicity statement: re-serializing the decoded view reproduces the input -/
+def C03_canonical_full : Prop :=
+  ∀ (h : HashFn) (t : Ty) (bs : Bytes) (n : Node), t.wf = true →
+    (isLeafTy t = true → bs.length = t.fixedSize) →
+    decodeTop h t bs = .ok n → serializeView t n = .ok bs
+
+/-- the C02 statement it reduces to (proved by another contributor in Props/C02.lean) -/
+def C02_roundtrip : Prop :=
+  ∀ (h : HashFn) (t : Ty) (v : Val) (n : Node), t.wf = true → hasType t v = true →
+    construct h t v = .ok n → serializeView t n = .ok (serialize t v)
+
+theorem C03_canonical_of_C02 (hC02 : C02_roundtrip) : C03_canonical_full := by
+  intro h t bs n hw hleaf hd
+  obtain ⟨v, hv, hs, hc⟩ := C03_sound h t bs n hleaf hd
+  rw [← hs]
+  exact hC02 h t v n hw hv hc
+
 end ZtypV.Props.C03
